@@ -72,7 +72,15 @@ def shape_strategy(max_turns):
 
 def _shapes(max_turns, ang, rad, dz, off, nz, sweep, turns):
     from hypothesis import strategies as st
+    q = st.integers(-40, 40).filter(lambda k: abs(k) >= 4).map(lambda k: k / 4.0)
+    zq = st.integers(-24, 24).map(lambda k: k / 4.0)
+    # control points exactly on one straight line in XY (equal dyadic steps) with
+    # a Z profile that is not linear: still a 3-D curve
+    straight = st.tuples(q, st.integers(-40, 40).map(lambda k: k / 4.0),
+                         st.lists(zq, min_size=2, max_size=4)).map(
+        lambda t: {"shape": "spline", "pts": [(t[0], t[1], z) for z in t[2]], "zgiven": True})
     return st.one_of(
+        straight,
         st.fixed_dictionaries({"shape": st.just("arc"), "r": rad, "a0": ang, "sweep": sweep,
                                "dz": dz, "zgiven": st.booleans(), "full": st.sampled_from([False, False, True, "nominal"])}),
         st.fixed_dictionaries({"shape": st.just("arc_radius"), "dx": nz, "dy": off,
